@@ -19,6 +19,9 @@ struct RawDatagramWriter {
     /// The queue that stores the datagram frame to send.
     datagrams: VecDeque<Bytes>,
     tx_wakers: ArcSendWakers,
+    /// The peer's `max_datagram_frame_size`, known once a writer has been created.
+    /// It bounds the whole frame, including the frame type and the optional length field.
+    max_frame_size: usize,
 }
 
 impl RawDatagramWriter {
@@ -26,6 +29,7 @@ impl RawDatagramWriter {
         Self {
             datagrams: VecDeque::new(),
             tx_wakers,
+            max_frame_size: usize::MAX,
         }
     }
 }
@@ -47,7 +51,7 @@ impl DatagramOutgoing {
     /// or datagram is disenabled by peer(`max_datagram_frame_size` is `0`)
     pub fn new_writer(&self, max_datagram_frame_size: u64) -> io::Result<DatagramWriter> {
         let mut guard = self.0.lock().unwrap();
-        let _writer = guard.as_mut().map_err(|e| e.clone())?;
+        let writer = guard.as_mut().map_err(|e| e.clone())?;
         if max_datagram_frame_size == 0 {
             tracing::error!("   Cause by: DatagramOutgoing::new_writer");
             return Err(io::Error::new(
@@ -55,6 +59,7 @@ impl DatagramOutgoing {
                 "Unreliable Datagram Extension was disenabled by peer's parameters",
             ));
         }
+        writer.max_frame_size = usize::try_from(max_datagram_frame_size).unwrap_or(usize::MAX);
         Ok(DatagramWriter {
             writer: self.0.clone(),
             max_datagram_frame_size: max_datagram_frame_size as _,
@@ -146,8 +151,10 @@ impl DatagramOutgoing {
         let frame_without_len = DatagramFrame::new(false, data_len);
         let frame_with_len = DatagramFrame::new(true, data_len);
         match max_encoding_size {
-            // Encode length
-            n if n >= frame_with_len.encoding_size() => {
+            // Encode length, unless the length field would push the frame beyond the peer's limit
+            n if n >= frame_with_len.encoding_size()
+                && frame_with_len.encoding_size() + data.len() <= writer.max_frame_size =>
+            {
                 (frame_with_len, data).dump(packet).unwrap();
             }
             // Do not encode length, may need padding
